@@ -329,5 +329,77 @@ theorem toDy_mag_mono (f : Fmt) (a b : Nat)
       apply mul_le_mul_of_nonneg_right _ (le_of_lt (two_zpow_pos _))
       push_cast; linarith
 
-end Sf.Ieee
+/-! ### the repaired writers (`f32WriteFields` / `f64WriteFields`: no early return, exponent field 0 encoded) -/
 
+/-- the repaired `float32_*_write` computes the IEEE fields of a normal value … -/
+theorem f32WriteFields_normal (b : Nat) (hn : f32.isNormal b = true) :
+    f32WriteFields b = ((if f32.sign b then 1 else 0), f32.expo b, f32.frac b) := by
+  have hne : f32.expo b ≠ f32.emax ∧ f32.expo b ≠ 0 := by simpa [Fmt.isNormal] using hn
+  have hfin : f32.isFinite b = true := by simp [Fmt.isFinite, hne.1]
+  have hfl := flushes_normal f32 b hn
+  have hfr : f32.frac b < 2 ^ 23 := by simp [Fmt.frac, f32]; omega
+  have hL : bitLen (2 ^ 23 + f32.frac b) = 24 := bitLen_unique _ _ (by simp) (by omega) (by omega)
+  unfold f32WriteFields
+  simp only [hfin, hfl, Bool.not_true, Bool.false_eq_true, if_false]
+  have hd : f32.toDy b = ⟨f32.sign b, 2 ^ 23 + f32.frac b, (f32.expo b : Int) - 1 + f32.qmin⟩ := by
+    unfold Fmt.toDy; simp only [hne.2, if_false]; rfl
+  rw [hd]
+  simp only [frexpOf, hL]
+  have hq : f32.qmin = -149 := by decide
+  rw [Prod.mk.injEq]
+  refine ⟨rfl, ?_⟩
+  rw [Prod.mk.injEq]
+  constructor
+  · rw [hq]; push_cast; omega
+  · omega
+
+/-- … and of a zero or subnormal value: sign bit, exponent field 0, the fraction field itself -/
+theorem f32WriteFields_tiny (b : Nat) (hfin : f32.isFinite b = true) (h0 : f32.expo b = 0) :
+    f32WriteFields b = ((if f32.sign b then 1 else 0), 0, f32.frac b) := by
+  have hfl := flushes_expo_zero f32 b hfin h0
+  have hfr : f32.frac b < 2 ^ 23 := by simp [Fmt.frac, f32]; omega
+  have hq : f32.qmin = -149 := by decide
+  unfold f32WriteFields
+  simp only [hfin, hfl, Bool.not_true, Bool.false_eq_true, if_false, if_true]
+  rw [toDy_subnormal f32 b h0, hq]
+  simp only [truncScaled]
+  norm_num
+  omega
+
+theorem f64WriteFields_normal (b : Nat) (hn : f64.isNormal b = true) :
+    f64WriteFields b = ((if f64.sign b then 1 else 0), f64.expo b, 2 ^ 28 + f64.frac b / 2 ^ 24, f64.frac b % 2 ^ 24) := by
+  have hne : f64.expo b ≠ f64.emax ∧ f64.expo b ≠ 0 := by simpa [Fmt.isNormal] using hn
+  have hfin : f64.isFinite b = true := by simp [Fmt.isFinite, hne.1]
+  have hfl := flushes_normal f64 b hn
+  have hfr : f64.frac b < 2 ^ 52 := by simp [Fmt.frac, f64]; omega
+  have hL : bitLen (2 ^ 52 + f64.frac b) = 53 := bitLen_unique _ _ (by simp) (by omega) (by omega)
+  unfold f64WriteFields
+  simp only [hfin, hfl, Bool.not_true, Bool.false_eq_true, if_false]
+  have hd : f64.toDy b = ⟨f64.sign b, 2 ^ 52 + f64.frac b, (f64.expo b : Int) - 1 + f64.qmin⟩ := by
+    unfold Fmt.toDy; simp only [hne.2, if_false]; rfl
+  rw [hd]
+  simp only [frexpOf, hL]
+  have hq : f64.qmin = -1074 := by decide
+  rw [Prod.mk.injEq]
+  refine ⟨rfl, ?_⟩
+  rw [Prod.mk.injEq]
+  constructor
+  · rw [hq]; push_cast; omega
+  · rw [Prod.mk.injEq]
+    constructor <;> omega
+
+/-- zero or subnormal double: exponent field 0, upper integer = the top 28 fraction bits WITHOUT hidden bit, lower = the low 24 -/
+theorem f64WriteFields_tiny (b : Nat) (hfin : f64.isFinite b = true) (h0 : f64.expo b = 0) :
+    f64WriteFields b = ((if f64.sign b then 1 else 0), 0, f64.frac b / 2 ^ 24, f64.frac b % 2 ^ 24) := by
+  have hfl := flushes_expo_zero f64 b hfin h0
+  have hq : f64.qmin = -1074 := by decide
+  unfold f64WriteFields
+  simp only [hfin, hfl, Bool.not_true, Bool.false_eq_true, if_false, if_true]
+  rw [toDy_subnormal f64 b h0, hq]
+  simp only [splitScaled]
+  norm_num
+  have h24 : Int.toNat 24 = 24 := rfl
+  rw [h24]
+  constructor <;> omega
+
+end Sf.Ieee
